@@ -180,9 +180,10 @@ class _Tunnel(Interface):
             # multiple invalid frames - ensure only one reconnect task is started
             if self._reconnect_task is None:
 
-                def _reconnect_task_cleanup(_: asyncio.Task[None]) -> None:
+                def _reconnect_task_cleanup(task: asyncio.Task[None]) -> None:
                     """Cleanup task so we don't need to check `done()` or do it explicitly everywhere."""
-                    self._reconnect_task = None
+                    if self._reconnect_task is task:
+                        self._reconnect_task = None
 
                 self._reconnect_task = asyncio.create_task(self._reconnect())
                 self._reconnect_task.add_done_callback(_reconnect_task_cleanup)
@@ -226,6 +227,9 @@ class _Tunnel(Interface):
                 await asyncio.sleep(self.auto_reconnect_wait)
             else:
                 logger.info("Successfully reconnected to KNX bus.")
+                # the tunnel is established - losing it again (even before the done
+                # callback of this task ran) has to start a new reconnect
+                self._reconnect_task = None
                 break
 
     def _prepare_disconnect(self) -> None:
